@@ -121,6 +121,10 @@ enum Scn {
     },
     /// classification sweep of 4-byte words lo..hi (step), alone or inside a context
     Sweep { lo: u64, hi: u64, step: u64, context: bool },
+    /// ONE uninterrupted run of `n_entries` timestamp / marker words (tens of megabytes: a board
+    /// whose scalers are switched off), generated procedurally from `seed`; parsed whole and in
+    /// `pieces` seeded pieces. A scaler block follows the run when `scaler_at_end`.
+    LongRun { n_entries: u64, seed: u64, pieces: u32, scaler_at_end: bool },
 }
 
 /// Resume protocol of the consumer (as documented in the chronobox module and used by
@@ -224,6 +228,14 @@ impl Check for C07Check {
             // all 2^24 words with top byte 0xFE, in context, 256 slices
             let lo = 0xFE00_0000u64 + (k << 16);
             return serde_json::to_value(Scn::Sweep { lo, hi: lo + (1 << 16), step: 1, context: true }).unwrap();
+        }
+        if index % 499 == 77 {
+            // (one or two per quick run, a hundred per thorough run)
+            let n_entries = match tier {
+                Tier::Quick => 12_000_000,
+                Tier::Thorough => *r.pick(&[12_000_000u64, 16_000_000, 20_000_000]),
+            };
+            return serde_json::to_value(Scn::LongRun { n_entries, seed: r.next_u64(), pieces: r.usize(2, 5) as u32, scaler_at_end: r.chance(1, 2) }).unwrap();
         }
         // stream scenario
         let n_elems = match if index % 61 == 7 { 10 } else { r.below(10) } {
@@ -415,6 +427,81 @@ fn run_on_caller_stack(scenario: &Value, stats: &mut Stats) -> Outcome {
         let mut viol: Vec<Violation> = Vec::new();
         let mut log = H64::new();
         match scn {
+            Scn::LongRun { n_entries, seed, pieces, scaler_at_end } => {
+                let word_of = |i: u64| -> u32 {
+                    let x = simcore::mix(seed, i);
+                    if i % 1000 == 999 {
+                        0xFF00_0000 | ((x as u32 & 1) << 23) | ((i / 1000) as u32 & 0x7F_FFFF)
+                    } else {
+                        ((0x80 | (x % 59) as u32) << 24) | ((x >> 8) as u32 & 0x00FF_FFFF)
+                    }
+                };
+                let mut stream: Vec<u8> = Vec::with_capacity(n_entries as usize * 4 + 248);
+                for i in 0..n_entries {
+                    stream.extend_from_slice(&word_of(i).to_le_bytes());
+                }
+                if scaler_at_end {
+                    stream.extend_from_slice(&encode_elems(&[Elem::Scaler { seed }, Elem::Ts { ch: 1, t24: 2 }]));
+                }
+                let expect_entries = n_entries as usize + scaler_at_end as usize;
+                log.u64(n_entries).u64(seed).u64(scaler_at_end as u64);
+                stats.probe("uninterrupted_run_of_ge_12M_entries");
+                // compares the real entries with the generator, entry by entry, without a second copy
+                let check = |entries: &[RefEntry], offset: usize| -> Option<String> {
+                    for (k, e) in entries.iter().enumerate() {
+                        let i = (offset + k) as u64;
+                        let w = if i < n_entries { word_of(i) } else { (0x80 | 1u32) << 24 | 2 };
+                        let want = reference_parse(&w.to_le_bytes()).0;
+                        if want.first() != Some(e) {
+                            return Some(format!("entry {i} is {e:?}, the stream holds {:?}", want.first()));
+                        }
+                    }
+                    None
+                };
+                // whole
+                let mut slice: &[u8] = &stream[..];
+                stats.executions += 1;
+                match catch(|| {
+                    let e = chronobox_fifo(&mut slice);
+                    (e.iter().map(view).collect::<Vec<RefEntry>>(), slice.len())
+                }) {
+                    Err(p) => viol.push(Violation { invariant: "C07.no-panic".into(), signature: format!("panic:{}:longrun", panic_site(&p)), detail: p, narrowed: None }),
+                    Ok((entries, rest)) => {
+                        if rest != 0 || entries.len() != expect_entries {
+                            viol.push(Violation {
+                                invariant: "C07.I1-differs-from-reference".into(),
+                                signature: "whole:longrun".into(),
+                                detail: format!("whole-stream parse of a valid {}-byte stream: {} entries / {} bytes left, reference {} entries / 0 bytes", stream.len(), entries.len(), rest, expect_entries),
+                                narrowed: None,
+                            });
+                        } else if let Some(d) = check(&entries, 0) {
+                            viol.push(Violation { invariant: "C07.I1-differs-from-reference".into(), signature: "whole:longrun:entry".into(), detail: d, narrowed: None });
+                        }
+                    }
+                }
+                // in pieces (seeded cut positions, anywhere)
+                if viol.is_empty() {
+                    let mut rr = Rng::new(seed ^ 0xC07);
+                    let mut cuts: Vec<usize> = (0..pieces.saturating_sub(1)).map(|_| rr.usize(0, stream.len())).collect();
+                    cuts.sort();
+                    match piecewise(&stream, &cuts, stats) {
+                        Err(p) => viol.push(Violation { invariant: "C07.no-panic".into(), signature: format!("panic:{}:longrun", panic_site(&p)), detail: p, narrowed: None }),
+                        Ok((entries, remainder, progress_ok)) => {
+                            if !remainder.is_empty() || entries.len() != expect_entries || !progress_ok {
+                                viol.push(Violation {
+                                    invariant: "C07.I2-piecewise-differs-from-whole".into(),
+                                    signature: "split:longrun".into(),
+                                    detail: format!("cuts {cuts:?}: {} entries / {} bytes left, expected {} / 0", entries.len(), remainder.len(), expect_entries),
+                                    narrowed: None,
+                                });
+                            } else if let Some(d) = check(&entries, 0) {
+                                viol.push(Violation { invariant: "C07.I2-piecewise-differs-from-whole".into(), signature: "split:longrun:entry".into(), detail: d, narrowed: None });
+                            }
+                        }
+                    }
+                }
+                return Outcome { log_hash: log.finish(), nontrivial: true, violations: viol };
+            }
             Scn::Sweep { lo, hi, step, context } => {
                 let pre = encode_elems(&[Elem::Ts { ch: 1, t24: 2 }]);
                 let post: Vec<u8> = encode_elems(
